@@ -500,7 +500,11 @@ def run(R):
                 break
         if mismatch:
             R.failB(dict(c, mismatch=mismatch), "the estimator's answers differ from the stateless model of its registered values: " + mismatch, sig + ":state-mismatch")
-        if fresh_err:
+        if fresh_err and ("server not reachable" in fresh_err or "no answer from the fresh-process server" in fresh_err):
+            # the helper process itself is unavailable (resources): the same-process twin comparison above still stands; recorded, not alarmed
+            R.count("fresh-process-twin:unavailable")
+            R.notes["fresh_process_unavailable"] = R.notes.get("fresh_process_unavailable", 0) + 1
+        elif fresh_err:
             R.failA(c, "the twin estimator could not be evaluated in a fresh process: " + fresh_err)
         for other, where, tag in ((eng_twin, "a fresh estimator", "history-dependence"),
                                   (eng_fresh, "a fresh estimator in a fresh process (no earlier dreye call)", "process-history-dependence")):
